@@ -34,7 +34,7 @@ def dump(v):
     if isinstance(v, int):
         if -2**53 < v < 2**53:
             return v
-        return {'$i': str(v)}
+        return {'$ix': hex(v)}        # hex: no int->str digit limit
     if isinstance(v, float):
         return {'$f': struct.pack('>d', v).hex(), 'repr': repr(v)}
     if isinstance(v, str):
@@ -87,6 +87,8 @@ def load(j):
     if isinstance(j, list):
         return [load(x) for x in j]
     if isinstance(j, dict):
+        if '$ix' in j:
+            return int(j['$ix'], 16)
         if '$i' in j:
             return int(j['$i'])
         if '$f' in j:
